@@ -11,8 +11,8 @@ using namespace sim;
 
 namespace {
 
-enum OpKind {SET_ORIGIN = 0, SET_END, CAST0, CAST1, CAST2, TRAVERSE, NEXT_BURST};
-const char * kOpName[] = {"setOriginPoint", "setEndPoint", "cast()", "cast(end)", "cast(origin,end)", "setEndPoint+next()*", "next() burst"};
+enum OpKind {SET_ORIGIN = 0, SET_END, CAST0, CAST1, CAST2, TRAVERSE, NEXT_BURST, SWITCH_GRID};
+const char * kOpName[] = {"setOriginPoint", "setEndPoint", "cast()", "cast(end)", "cast(origin,end)", "setEndPoint+next()*", "next() burst", "setGridIndexMapping(other grid)"};
 
 struct Op {int kind = 0; double o[3] = {0, 0, 0}; double e[3] = {0, 0, 0}; int count = 0;};
 
@@ -39,20 +39,26 @@ Outcome runCaster(const Plan & p, Ctx & c)
   Pt lo, up; for (size_t k = 0; k < DIM; ++k) {lo[(long)k] = (S)p.lower[k]; up[(long)k] = (S)p.upper[k];}
   if (p.rangeCtor) {for (size_t k = 0; k < DIM; ++k) {lo[(long)k] = -(S)p.upper[0]; up[(long)k] = (S)p.upper[0];}}
   std::unique_ptr<Map> map(p.rangeCtor ? new Map((S)p.upper[0], (S)p.res) : new Map(romea::core::Interval<S, DIM>(lo, up), (S)p.res));
-  std::unique_ptr<RC> rc(p.defaultCtor ? new RC() : new RC(map.get()));
-  if (p.defaultCtor) {rc->setGridIndexMapping(map.get()); SIM_PROBE("caster_default_constructed_then_given_the_grid");}
+  // a second grid over the same extent with another resolution: the caster can be pointed at it and back
+  std::unique_ptr<Map> map2(new Map(romea::core::Interval<S, DIM>(lo, up), (S)(p.res * 1.75 <= 1.0 ? p.res * 1.75 : p.res)));   // stays inside the resolution and cell-count domain
+  Map * cur = map.get(); bool onSecond = false;
+  std::unique_ptr<RC> rc(p.defaultCtor ? new RC() : new RC(cur));
+  if (p.defaultCtor) {rc->setGridIndexMapping(cur); SIM_PROBE("caster_default_constructed_then_given_the_grid");}
   if (p.rangeCtor) {SIM_PROBE("grid_built_from_maximal_range");}
-  const long double res = (long double)map->getCellResolution();
-  size_t ncell[3] = {1, 1, 1}; long double maxCoord = 0;
-  for (size_t k = 0; k < DIM; ++k) {
-    ncell[k] = map->getNumberOfCellsAlongAxes()[(long)k];
-    const auto & cc = map->getCellCentersPositionAlong(k);
-    maxCoord = std::max<long double>(maxCoord, std::max(std::fabs((long double)cc.front()), std::fabs((long double)cc.back())) + res);
-  }
+  long double res = 0; size_t ncell[3] = {1, 1, 1}; long double maxCoord = 0;
+  auto adoptGrid = [&]() {
+      res = (long double)cur->getCellResolution(); maxCoord = 0;
+      for (size_t k = 0; k < DIM; ++k) {
+        ncell[k] = cur->getNumberOfCellsAlongAxes()[(long)k];
+        const auto & cc = cur->getCellCentersPositionAlong(k);
+        maxCoord = std::max<long double>(maxCoord, std::max(std::fabs((long double)cc.front()), std::fabs((long double)cc.back())) + res);
+      }
+    };
+  adoptGrid();
   auto pt = [&](const double * v) {Pt q; for (size_t k = 0; k < DIM; ++k) {
         // points are kept inside the extent also after conversion to the grid's scalar type
         S s = (S)v[k]; if (s < lo[(long)k]) {s = lo[(long)k];} if (s > up[(long)k]) {s = up[(long)k];} q[(long)k] = s;} return q;};
-  auto centre = [&](size_t axis, size_t idx) {return (long double)map->getCellCentersPositionAlong(axis)[idx];};
+  auto centre = [&](size_t axis, size_t idx) {return (long double)cur->getCellCentersPositionAlong(axis)[idx];};
 
   bool originSet = false; Pt curO = Pt::Zero(); size_t no = 0; bool stateConsumed = false;
   bool freshEnd = false; Pt curE = Pt::Zero();   // setEndPoint was the previous call: cast() then has a named end point
@@ -60,7 +66,7 @@ Outcome runCaster(const Plan & p, Ctx & c)
   // ---- invariants of one cast result (input clauses) and equality with a fresh caster (history clause)
   auto checkRay = [&](const Ray & ray, const Pt & o, const Pt & e, const char * how) -> Outcome {
       // fresh twin: a new caster on the same grid, given only origin and end
-      RC twin(map.get());
+      RC twin(cur);
       Ray want = twin.cast(o, e);
       c.log(ray.size());
       for (auto & ci : ray) {for (size_t k = 0; k < DIM; ++k) {c.log(ci[(long)k]);}}
@@ -208,6 +214,14 @@ Outcome runCaster(const Plan & p, Ctx & c)
           Outcome oc = checkRay(r, curO, e, kOpName[op.kind]); if (!oc.ok) {return oc;}
           stateConsumed = true; break;
         }
+      case SWITCH_GRID: {
+          // the grid is part of what a cast depends on: after the switch everything must be as with a fresh caster on
+          // the new grid (the origin has to be given again: its cell indexes belong to the old grid)
+          onSecond = !onSecond; cur = onSecond ? map2.get() : map.get();
+          rc->setGridIndexMapping(cur); adoptGrid();
+          originSet = false; stateConsumed = true; SIM_PROBE("caster_switched_to_another_grid");
+          c.note(fmt("#%zu setGridIndexMapping -> %s grid", no, onSecond ? "second" : "first")); break;
+        }
       default: {
           // steps that consume or over-run the traversal state before the next cast
           if (!originSet) {rc->setOriginPoint(o); curO = o; originSet = true; rc->setEndPoint(e);}
@@ -297,6 +311,7 @@ struct PropC14
       if (r.chance(pConsume)) {op.kind = r.chance(0.6) ? NEXT_BURST : CAST0; op.count = (int)r.range(1, r.chance(0.2) ? 3000 : 30);} else {
         static const int kinds[] = {SET_ORIGIN, SET_END, CAST1, CAST1, CAST2, CAST2, CAST2, TRAVERSE};
         op.kind = r.pick(kinds);
+        if (r.chance(0.04)) {op.kind = SWITCH_GRID;}
       }
       p.ops.push_back(op);
       if (op.kind == SET_END && r.chance(0.6)) {Op c0 = op; c0.kind = CAST0; p.ops.push_back(c0);}
@@ -384,7 +399,7 @@ struct PropC14
   std::string signature(const Plan & p, const Outcome & o) const
   {
     std::string s = o.cls + "|" + (p.isFloat ? "float" : "double") + std::to_string(p.dim) + "|";
-    for (auto & op : p.ops) {s += "OE012TN"[op.kind];}
+    for (auto & op : p.ops) {s += "OE012TNG"[op.kind];}
     return s;
   }
   std::vector<uint64_t> sampleIndexes() const
@@ -398,7 +413,7 @@ struct PropC14
     return {"end_point_on_or_near_a_cell_border", "coincident_origin_and_end", "axis_aligned_ray_zero_step_axis", "origin_and_end_in_same_cell",
       "exact_diagonal_ray", "ray_longer_than_1000_cells", "cast_after_traversal_state_was_consumed",
       "ray_ends_in_a_neighbour_of_the_end_index_cell_border_case",
-      "caster_default_constructed_then_given_the_grid", "grid_built_from_maximal_range", "three_call_form_setOrigin_setEnd_cast"};
+      "caster_default_constructed_then_given_the_grid", "grid_built_from_maximal_range", "three_call_form_setOrigin_setEnd_cast", "caster_switched_to_another_grid"};
   }
   Json describe() const
   {
